@@ -69,6 +69,11 @@ pub fn norm_cdf(x: f64) -> f64 {
 
 pub fn inv_norm_cdf(x: f64) -> f64 {
     use statrs::distribution::{ContinuousCDF, Normal};
+    // statrs panics outside [0, 1]; a noisy run of an ill-conditioned tree can step outside, which
+    // the conditioning screen then discards
+    if !(x > 0.0 && x < 1.0) {
+        return f64::NAN;
+    }
     Normal::new(0.0, 1.0).unwrap().inverse_cdf(x)
 }
 
